@@ -1428,6 +1428,7 @@ NX_FUNCS = {
     "descendants": M.nx_descendants,
     "connected_components": M.nx_connected_components,
     "is_connected": M.nx_is_connected,
+    "weakly_connected_components": M.nx_weakly_connected_components,
     "has_path": M.nx_has_path,
     "is_directed_acyclic_graph": M.nx_is_dag,
     "topological_sort": nx_topological_sort,
